@@ -1086,7 +1086,7 @@ def r_docmarker_follow_agree(ctx, repo):
             if undecided:
                 raise AnalysisError('%s: the test of the character after a document marker (%s) is not decidable' % (f.qualname, norm(t)[:60]))
             sites.append((f, n, frozenset(acc)))
-    if len(sites) < 4:
+    if len(sites) < 2:
         raise AnalysisError('only %d document-marker tests found in the scanner (5 confirmed)' % len(sites))
     # the reference is the majority set; every site must equal it
     from collections import Counter
@@ -1115,7 +1115,7 @@ def r_directive_name_exact(ctx, repo):
     sc = _method(repo, 'scanner.Scanner', 'scan_directive')
     built = set()
     for x in walk_function(sc.node):
-        if isinstance(x, ast.Compare) and len(x.ops) == 1 and isinstance(x.ops[0], (ast.Eq, ast.In)):
+        if isinstance(x, ast.Compare) and len(x.ops) == 1 and isinstance(x.ops[0], (ast.Eq, ast.In, ast.NotEq, ast.NotIn)):
             for c in x.comparators:
                 v = A.const_value(c)
                 if isinstance(v, str):
